@@ -28,7 +28,9 @@ func c05Profile() Profile {
 	p.MissingRefs = true
 	p.GlobalCM = true
 	p.AuthSecret = true
-	p.GlobalKeys = []annChoice{{"timeout-client", []string{"30s", "40s"}}, {"max-connections", []string{"1000", "3000"}}}
+	p.GlobalKeys = []annChoice{{"timeout-client", []string{"30s", "40s"}}, {"max-connections", []string{"1000", "3000"}},
+		// rendered inside the backend sections: a change rewrites every shard file, also when it is a revert
+		{"ssl-redirect-code", []string{"301", "307"}}, {"cookie-key", []string{"k1", "k2"}}}
 	p.Ann = append(p.Ann, annChoice{"auth-type", []string{"basic"}}, annChoice{"auth-secret", []string{"pw"}})
 	p.Avoid = []avoidRule{{Sig: sigDefBackJoins, Pred: gainsDefaultBackend}}
 	return p
